@@ -133,7 +133,11 @@ pub fn run_case_c07(case: &Case, prog: &Prog, mode: &Mode) -> (CaseReport, Value
         deep = match run_child(case.idx, &plan, Duration::from_secs(30)) {
             Ok(v) => json!(format!("completed panicked={}", v["panicked"])),
             Err(e) if e == "timeout" => json!("timeout"),
-            Err(_) => json!("crashed"),
+            Err(e) if e.starts_with("crashed") => json!("crashed"),
+            Err(e) => {
+                rep.class(&format!("child run without result (not judged): {}", e.chars().take(160).collect::<String>()));
+                json!("timeout")
+            }
         };
         rep.runs += 1;
     }
@@ -151,7 +155,11 @@ pub fn run_case_c07(case: &Case, prog: &Prog, mode: &Mode) -> (CaseReport, Value
                 json!(format!("completed panicked={} calls={:x}", v["panicked"], fnv(&calls.join(","))))
             }
             Err(e) if e == "timeout" => json!("timeout"),
-            Err(_) => json!("crashed"),
+            Err(e) if e.starts_with("crashed") => json!("crashed"),
+            Err(e) => {
+                rep.class(&format!("child run without result (not judged): {}", e.chars().take(160).collect::<String>()));
+                json!("timeout")
+            }
         };
         rep.runs += 1;
         rep.class("caller_thread_with_long_non_ascii_name");
@@ -275,9 +283,13 @@ fn run_child_named(case_idx: usize, plan: &Plan, timeout: Duration, hold_ms: u64
         s
     });
     let start = Instant::now();
+    let status;
     loop {
         match child.try_wait() {
-            Ok(Some(_)) => break,
+            Ok(Some(st)) => {
+                status = st;
+                break;
+            }
             Ok(None) => {
                 if start.elapsed() > timeout {
                     let _ = child.kill();
@@ -297,7 +309,13 @@ fn run_child_named(case_idx: usize, plan: &Plan, timeout: Duration, hold_ms: u64
             }
         }
     }
-    Err(format!("child produced no result: {}", out.chars().take(200).collect::<String>()))
+    // killed by a signal (stack overflow: SIGSEGV / SIGABRT) = the evaluation crashed; anything else that leaves
+    // no result line is a problem of the harness or the machine, not a verdict
+    use std::os::unix::process::ExitStatusExt;
+    match status.signal() {
+        Some(sig) => Err(format!("crashed: signal {}", sig)),
+        None => Err(format!("infra: child produced no result (exit {:?}): {}", status.code(), out.chars().take(200).collect::<String>())),
+    }
 }
 
 pub fn run_case_c18(case: &Case, prog: &Prog, mode: &Mode) -> CaseReport {
